@@ -19,8 +19,16 @@ def bilinear(op: Any, opt: Any, rng: Any) -> None:
     mon = 'C03.bilinear'
     x = gen.rand_input(rng, op.in_structure())
     y = gen.rand_input(rng, op.out_structure())
-    lhs = float(furax.tree.dot(op.mv(x), y))
-    rhs = float(furax.tree.dot(x, opt.mv(y)))
+    ax, aty = op.mv(x), opt.mv(y)
+    lhs = float(furax.tree.dot(ax, y))
+    rhs = float(furax.tree.dot(x, aty))
+    # "input and output structures are swapped" also for what the transpose RETURNS (dtypes included), whenever the operator itself
+    # returns what it declares
+    if dense.struct_eq_loose(dense.struct_of(ax), op.out_structure()) and not dense.struct_eq_loose(dense.struct_of(aty), op.in_structure()):
+        LOG.evaluated(mon)
+        LOG.violation('C03', mon, f'{type(op).__name__}.T/returned-structure', 'A.T(y) does not have the structure of the input space of A',
+                      expr=dense.describe(op), got=dense.struct_str(dense.struct_of(aty)), expected=dense.struct_str(op.in_structure()))
+        return
     tol = dense.tol_for(op, opt) * 50
     LOG.evaluated(mon)
     if not np.isclose(lhs, rhs, rtol=tol, atol=tol * (1 + abs(lhs))):
